@@ -45,8 +45,7 @@ def handleCsv (j : Json) : Except String Json := do
   return Json.mkObj [("raised", Json.bool raised), ("nodes", Json.str (st "out-nodes.csv")),
                      ("edges", Json.str (st "out-edges.csv"))]
 
-def handle (j : Json) : Except String Json := do
-  if let .ok (Json.str "csv") := j.getObjVal? "op" then return ← handleCsv j
+def parseGeff (j : Json) : Except String (InMemGeff String) := do
   let nodeIds ← getStrList (← j.getObjVal? "node_ids")
   let edges ← (← (← j.getObjVal? "edges").getArr?).toList.mapM (fun p => do
     let q ← getStrList p
@@ -55,11 +54,25 @@ def handle (j : Json) : Except String Json := do
     | _ => throw "pair expected")
   let nps ← (← (← j.getObjVal? "node_props").getArr?).toList.mapM getProp
   let eps ← (← (← j.getObjVal? "edge_props").getArr?).toList.mapM getProp
-  let coll := Json.arr #[Json.bool (!noCollisionB ["id"] nps), Json.bool (!noCollisionB ["source", "target"] eps)]
-  match geffToDataframes ⟨nodeIds, edges, nps, eps⟩ with
-  | .ok t => return Json.mkObj [("collision", coll), ("ok", Json.mkObj [("nodes", dictJson t.nodes), ("node_warn", warnJson t.nodeWarnings),
+  return ⟨nodeIds, edges, nps, eps⟩
+
+def render (g : InMemGeff String) (r : Outcome (Tables String)) : Json :=
+  let coll := Json.arr #[Json.bool (!noCollisionB ["id"] g.nodeProps), Json.bool (!noCollisionB ["source", "target"] g.edgeProps)]
+  match r with
+  | .ok t => Json.mkObj [("collision", coll), ("ok", Json.mkObj [("nodes", dictJson t.nodes), ("node_warn", warnJson t.nodeWarnings),
                                                    ("edges", dictJson t.edges), ("edge_warn", warnJson t.edgeWarnings)])]
-  | .valueError => return Json.mkObj [("exc", "ValueError")]
-  | .indexError => return Json.mkObj [("exc", "IndexError")]
+  | .valueError => Json.mkObj [("exc", "ValueError")]
+  | .indexError => Json.mkObj [("exc", "IndexError")]
+
+/-- {"op":"seq","stores":[store,…]} → {"steps":[answer,…]} : a sequence of exports in one process (`exportSeq`) -/
+def handleSeq (j : Json) : Except String Json := do
+  let gs ← (← (← j.getObjVal? "stores").getArr?).toList.mapM parseGeff
+  return Json.mkObj [("steps", Json.arr ((gs.zip (exportSeq gs)).map (fun p => render p.1 p.2)).toArray)]
+
+def handle (j : Json) : Except String Json := do
+  if let .ok (Json.str "csv") := j.getObjVal? "op" then return ← handleCsv j
+  if let .ok (Json.str "seq") := j.getObjVal? "op" then return ← handleSeq j
+  let g ← parseGeff j
+  return render g (geffToDataframes g)
 
 def main : IO Unit := Proto.run handle
